@@ -183,8 +183,8 @@ Fixpoint guard_C07_final_tail (p : pt) (rho : env) {struct p} : bool :=
   end.
 
 (* finding `for-final-floor`: for every loop on the structurally last path the index final_values substitutes
-   (floor form) is the index of the last iteration.  EXACT: `(o - a) mod s = 0` implies it, but e.g. range(0,1,2) and
-   range(0,3,2) satisfy it without the step dividing the span. *)
+   (floor form) is the index of the last iteration.  EXACT (C07_floor_guard_exact): it holds iff the step divides the
+   span or the loop has a single iteration (e.g. range(0,1,2)). *)
 Fixpoint guard_C07_for_final_floor_path (p : pt) (rho : env) {struct p} : bool :=
   match p with
   | Table _ | Point _ _ | Const _ _ | Func _ _ _ => true
